@@ -375,6 +375,31 @@ def r5_placeholders_inert(ctx) -> None:
     defaults = {k: unparse(v[-1].value) if getattr(v[-1], "value", None) is not None else "" for k, v in ph.assigns.items()}
     if "rules" in defaults and "list" not in defaults["rules"] and "[]" not in defaults["rules"]:
         r.violation("C07.R5", ph.qual, f"rules = {defaults['rules']}", "the placeholder filter must not target any rule", f"{ph.module.relpath}:{ph.node.lineno}")
+    # the log source placeholder (EmptyLogSource, a subclass) must be an admissible operand of the containment test that
+    # every applied filter performs on the rule: interpreted with stand-in classes
+    from ..tabulate import Interp, Raised
+    lc = prog.func("sigma.rule.logsource.SigmaLogSource.__contains__")
+
+    class _LS:
+        category = product = service = source = None
+
+    class _ELS(_LS):
+        pass
+    flt = _LS()
+    flt.category = "test"
+    outcomes = {}
+    for nm, other in (("placeholder of a rule with an invalid log source", _ELS()), ("log source of the same class", _LS())):
+        it = Interp({"self": flt, "other": other, "SigmaTypeError": type("SigmaTypeError", (Exception,), {})}, max_steps=200)
+        try:
+            outcomes[nm] = it.call(lc.node.body)
+        except Raised as ex:
+            outcomes[nm] = f"<raises {ex}>"
+    badc = {k: v for k, v in outcomes.items() if not isinstance(v, bool)}
+    if badc:
+        k, v = next(iter(badc.items()))
+        r.violation("C07.R5", lc.qual, f"`{k}` in a filter's log source: {v}", "the containment test refuses an operand that collecting mode itself produces: a collection with one rule whose log source is invalid plus any filter raises SigmaTypeError from SigmaCollection.from_yaml(..., collect_errors=True) when the filters are applied", lc.loc)
+    else:
+        r.ok("C07.R5", lc.qual, "the log source placeholder (a subclass instance) and plain log sources are admissible operands of the containment test", lc.loc)
     r.floor("C07.R5", 2)
 
 
